@@ -300,7 +300,9 @@ func genInbox(r *rng, ty string, k int) *scenario {
 
 // ---- client (outbox) posts -------------------------------------------------------------------------------
 
-func addressing(r *rng, m jmap, w *world) {
+func addressing(r *rng, m jmap, w *world) { addressingN(r, m, w, 3) }
+
+func addressingN(r *rng, m jmap, w *world, maxEntries int) {
 	pool := []string{actorID(remote, "carol"), actorID(remote, "dave"), actorID(remote2, "frank"), actorID(local, "bob"), public, "as:Public",
 		remote + "/cols/7", remote + "/cols/8", actorID(remote, "ghost"), actorID(local, "alice")}
 	for _, p := range []string{"to", "bto", "cc", "bcc", "audience"} {
@@ -308,7 +310,7 @@ func addressing(r *rng, m jmap, w *world) {
 			continue
 		}
 		var l []interface{}
-		for i := 0; i < 1+r.intn(3); i++ {
+		for i := 0; i < 1+r.intn(maxEntries); i++ {
 			l = append(l, iriOrEmbedded(r, pick(r, pool)))
 		}
 		m[p] = one(l)
@@ -353,21 +355,38 @@ func genOutbox(r *rng, ty string, k int) *scenario {
 		body = note(0)
 		body["@context"] = asCtx
 		addressing(r, body, w)
-	case "Create":
+	case "Create", "CreateBig":
+		// "Create": at most one id can be missing in each direction, so Go's map iteration order cannot show;
+		// "CreateBig": arbitrary overlapping sets (judged at set level only, not replayed)
+		big := ty == "CreateBig"
 		body = jmap{"@context": asCtx, "type": "Create", "actor": alice}
+		if big && r.chance(1, 2) {
+			body["actor"] = []interface{}{alice, actorID(local, "bob")}
+		}
 		var objs []interface{}
 		for i := 0; i < 1+r.intn(3); i++ {
 			o := note(i)
-			if r.chance(1, 2) {
-				o["to"] = pick(r, remoteActors)
-			}
-			if r.chance(1, 3) {
-				o["bcc"] = pick(r, remoteActors)
+			if big {
+				addressingN(r, o, w, 3)
+				if r.chance(1, 2) {
+					o["attributedTo"] = []interface{}{pick(r, remoteActors), actorID(local, "bob")}
+				}
+			} else {
+				if r.chance(1, 2) {
+					o["to"] = pick(r, remoteActors)
+				}
+				if r.chance(1, 3) {
+					o["bcc"] = pick(r, remoteActors)
+				}
 			}
 			objs = append(objs, o)
 		}
 		body["object"] = one(objs)
-		addressing(r, body, w)
+		if big {
+			addressingN(r, body, w, 3)
+		} else {
+			addressingN(r, body, w, 1)
+		}
 	case "Update":
 		body = jmap{"@context": asCtx, "type": "Update", "actor": alice}
 		id := fmt.Sprintf("%s/notes/%d", local, 1+r.intn(3))
@@ -437,7 +456,10 @@ func genOutbox(r *rng, ty string, k int) *scenario {
 	}
 	sc := outboxScenario("outbox:"+ty, w, cfg, body)
 	sc.Tags[ty] = true
-	if r.chance(1, 4) && ty != "Update" { // programmatic Send instead of a client POST
+	if ty == "CreateBig" {
+		sc.NoReplay = true
+	}
+	if r.chance(1, 4) && ty != "Update" && ty != "CreateBig" { // programmatic Send instead of a client POST
 		sc.Entry = "send"
 		sc.Send = body
 		sc.Body = nil
@@ -495,4 +517,117 @@ func genGet(r *rng, kind string, k int) *scenario {
 	}
 	w.Clock = int64(r.intn(2000000000)) - 100000000
 	return sc
+}
+
+// ---- the C07/C10 product: entry x protocols x auth x block x method x header x body -------------------------
+
+var headerVariants = []string{
+	"application/activity+json",
+	`application/ld+json; profile="https://www.w3.org/ns/activitystreams"`,
+	`application/ld+json;profile=https://www.w3.org/ns/activitystreams`,
+	`application/ld+json ; profile="https://www.w3.org/ns/activitystreams"`,
+	`application/ld+json ;profile=https://www.w3.org/ns/activitystreams`,
+	`text/html, application/activity+json;q=0.9`,
+	"application/ld+json",
+	`application/ld+json;  profile="https://www.w3.org/ns/activitystreams"`,
+	"application/json",
+	"text/html",
+	"",
+	"APPLICATION/ACTIVITY+JSON",
+}
+
+func gateScenarios(r *rng, sample int) []*scenario {
+	var all []*scenario
+	alice := actorID(local, "alice")
+	bodies := []func() (jmap, string){
+		func() (jmap, string) {
+			return jmap{"@context": asCtx, "type": "Like", "id": remote + "/activities/like-gate", "actor": actorID(remote, "carol"), "object": local + "/notes/1"}, ""
+		},
+		func() (jmap, string) { return jmap{"@context": asCtx, "type": "Note", "content": "bare"}, "" },
+		func() (jmap, string) {
+			return jmap{"@context": asCtx, "type": "Frobnicate", "id": remote + "/activities/x", "actor": actorID(remote, "carol")}, ""
+		},
+		func() (jmap, string) { return nil, "this is not json" },
+	}
+	for _, entry := range []string{"postinbox", "postoutbox", "getinbox", "getoutbox", "handler"} {
+		for _, proto := range []string{"social", "federating", "both"} {
+			for _, auth := range []string{"ok", "denied", "error"} {
+				for _, block := range []string{"no", "yes", "error"} {
+					if entry != "postinbox" && block != "no" {
+						continue
+					}
+					for _, method := range []string{"GET", "POST", "HEAD", "PUT"} {
+						for hi, hv := range headerVariants {
+							for bi := range bodies {
+								if (entry == "getinbox" || entry == "getoutbox" || entry == "handler") && bi > 0 {
+									continue
+								}
+								cfg := defaultCfg()
+								cfg.Social = proto != "federating"
+								cfg.Federating = proto != "social"
+								cfg.Auth = auth
+								switch block {
+								case "yes":
+									cfg.Blocked = []string{actorID(remote, "carol")}
+								case "error":
+									cfg.BlockError = true
+								}
+								sc := &scenario{Family: "gate:" + entry, Cfg: cfg, Entry: entry, Method: method, Tags: map[string]bool{}}
+								sc.Note = fmt.Sprintf("%s/%s/auth=%s/block=%s/%s/h%d/b%d", entry, proto, auth, block, method, hi, bi)
+								switch entry {
+								case "postinbox":
+									sc.Path = "/users/alice/inbox"
+								case "postoutbox":
+									sc.Path = "/users/alice/outbox"
+								case "getinbox":
+									sc.Path = "/users/alice/inbox"
+								case "getoutbox":
+									sc.Path = "/users/alice/outbox"
+								default:
+									sc.Path = "/notes/1"
+								}
+								if method == "GET" || method == "HEAD" {
+									sc.Accept = hv
+									if r.chance(1, 3) {
+										sc.ContentType = apContentType // the other header must not matter
+									}
+								} else {
+									sc.ContentType = hv
+									if r.chance(1, 3) {
+										sc.Accept = apContentType
+									}
+								}
+								b, raw := bodies[bi]()
+								sc.Body, sc.RawBody = b, raw
+								_ = alice
+								all = append(all, sc)
+							}
+						}
+					}
+				}
+			}
+		}
+	}
+	if sample <= 0 || sample >= len(all) {
+		for _, sc := range all {
+			sc.World = baseWorld(r)
+		}
+		return all
+	}
+	// covering sample: every value of every dimension appears; the rest random
+	var out []*scenario
+	step := len(all) / sample
+	if step < 1 {
+		step = 1
+	}
+	off := r.intn(step)
+	for i := off; i < len(all); i += step {
+		j := i + r.intn(step)
+		if j >= len(all) {
+			j = i
+		}
+		all[j].World = baseWorld(r)
+		out = append(out, all[j])
+	}
+	return out
 }
